@@ -136,6 +136,22 @@ INFO = {
              "name/timestamp, palette colours consistent per container, no escape bytes with colour off, never an error or panic.",
         note="Timestamp text trusted to time.Format; tie order and colour choice left open.",
         ref="6/C15"),
+    "C06": dict(
+        text="TLC enumerates JSON documents with their reference encoding and every truncation of it, logfmt documents and pattern "
+             "templates, checks the stage semantics' own laws (never dropped, line untouched, malformed flagged, override, restriction) "
+             "and exports each case; the cases and random ones (alternative encodings asserted equal by encoding/json, nested documents, "
+             "malformed constructions, unpack, logfmt quoting, pattern) run through Engine.Eval and TLC validates count, line and label "
+             "set of every returned entry against the document (the ground truth), with explicitly open spots for nested values, "
+             "malformed prefixes and missing paths.",
+        note="Ground truth is the document carried by the case; regexp stage not modelled; error detail text left open.",
+        ref="6/C06"),
+    "C07": dict(
+        text="TLC checks the rewriting stages' laws on every small label set (rename moves and removes, keep/drop complement, template "
+             "snapshot and failure handling, decolorize idempotent) and exports every case as query TEXT evaluated by Engine.Eval, so that "
+             "the parser's choice of source/target, the template engine and the matchers are all in the loop; TLC validates line and labels "
+             "of every returned entry.",
+        note="Template algebra of five part kinds; SGR sequences only.",
+        ref="6/C07"),
 }
 
 NOT_YET = "no check registered yet in this revision (machinery under construction; see DESIGN.md section 6 for the planned model)"
